@@ -453,6 +453,49 @@ func c17(r *Run) {
 			// triggered exactly when the shard went from empty to non-empty
 			r.ob("C17.R4:trigger-on-first", "Add triggers when the shard was empty before this Add", add, site, triggerOnEmpty(add, site), "trigger := len(getters[shard]) == 0, read under the lock", true)
 		}
+		// ... and only when this Add put something into it: a trigger for a shard that stays empty is repeated by the next Add,
+		// one shard then owns several of the ring's `size` slots and the write index overwrites another shard's pending entry
+		{
+			isLenOfGts := func(v ssa.Value) bool {
+				c, ok := v.(*ssa.Call)
+				if !ok {
+					return false
+				}
+				bi, ok := c.Call.Value.(*ssa.Builtin)
+				if !ok || bi.Name() != "len" {
+					return false
+				}
+				if p, isP := c.Call.Args[0].(*ssa.Parameter); isP && p.Parent() == add {
+					return true
+				}
+				return false
+			}
+			nonEmpty := anyAtom(
+				cmpAtom(isLenOfGts, isConstEq(0), func(op token.Token) (bool, bool) {
+					switch op {
+					case token.NEQ, token.GTR:
+						return true, true
+					case token.EQL, token.LEQ:
+						return false, true
+					}
+					return false, false
+				}),
+				cmpAtom(isLenOfGts, isConstEq(1), func(op token.Token) (bool, bool) {
+					switch op {
+					case token.GEQ:
+						return true, true
+					case token.LSS:
+						return false, true
+					}
+					return false, false
+				}))
+			for _, site := range findIns(add, func(i ssa.Instruction) bool { return isCall(i, triggering) }) {
+				base := &Search{Fn: add}
+				wit := guardWitness(add, site, nonEmpty, base)
+				r.Visited += base.Visited
+				r.obW("C17.R4:trigger-only-when-something-was-added", "Add triggers a shard only when it appended at least one getter to it: a trigger for a shard that stays empty is repeated by every later Add, the trigger ring (one slot per shard) overflows and another shard's pending entry is overwritten - its getters are never invoked", add, site, wit, "guarded by len(gts) > 0")
+			}
+		}
 		drained := cmpAtom(atomicValOn("Load", fTrigger), isConstEq(0), eqRel)
 		isClosed := cmpAtom(atomicValOn("Load", fState), isConstEq(stClosed), eqRel)
 		n := 0
